@@ -479,9 +479,15 @@ pub async fn scenario(w: World, h: Hist, trace: bool) -> Outcome {
                         arrivals.insert((wi as u32, *seq), (arrival_no, key, max_acc));
                         model.deliver_data(wi as u32, key, *seq, *ts)
                     }
-                    Op::Dispose { ts, .. } => model.deliver_not_alive(wi as u32, key, *ts, false),
+                    Op::Dispose { ts, .. } => {
+                        arrival_no += 1;
+                        model.arrival_clock = arrival_no;
+                        model.deliver_not_alive(wi as u32, key, *ts, false)
+                    }
                     Op::Unreg { ts, .. } => {
                         wreg[wi].retain(|k| *k != key);
+                        arrival_no += 1;
+                        model.arrival_clock = arrival_no;
                         model.deliver_not_alive(wi as u32, key, *ts, true)
                     }
                     _ => unreachable!(),
@@ -593,6 +599,17 @@ pub async fn scenario(w: World, h: Hist, trace: bool) -> Outcome {
     // ---- evidence
     for (k, v) in model.stats.iter() {
         out.stat(k, *v);
+    }
+    if prop == "C25" {
+        if !model.c25_notifs.is_empty() {
+            out.stat("histories_with_dispose_or_unregister", 1);
+        }
+        if model.get("model_rebirths") > 0 {
+            out.stat("histories_with_rebirth", 1);
+            if out.abandoned.is_some() {
+                out.stat("histories_with_rebirth_abandoned", 1);
+            }
+        }
     }
     out.shape = vcore::mix(model.shape, vcore::fnv_str(&cfg.class()));
     out.states = model.states_visited.iter().cloned().collect();
@@ -1041,6 +1058,14 @@ fn note_presented_c25(
                         let nc = arrivals.get(idc).map(|x| x.0).unwrap_or(0);
                         *idc != id1 && *idc != id2 && nc > n1 && nc < n2
                     });
+                    // ... or a dispose / unregister notification at least the separation away from the
+                    // earlier sample's stamp (a filter that also applies to notifications accepts it, so
+                    // that it becomes the last accepted stamp)
+                    let between = between
+                        || model
+                            .c25_notifs
+                            .iter()
+                            .any(|(nn, k, tn)| k == key && *nn > n1 && *nn < n2 && (tn - t1).abs() >= sep);
                     let vs = if between { "older_accepted" } else { "last_accepted" };
                     let sig = format!("too_close|earlier_sample={earlier}|stamps={order}|vs={vs}");
                     if !out.findings.iter().any(|f| f.sig == sig) {
